@@ -607,8 +607,9 @@ def r7b(cx, rec):
                         lo = max(lo, C07.fold(e[3]))
                 mins.append((c or 0) + lo)
         guaranteed = min(mins) if mins else 0
-        fills = C07.reader_layout(F, frm)
-        for key, (s, e_, to_cur, bb) in fills.items():
+        fills, frm = C07.reader_layout2(F, frm)
+        for lk, (s, e_, to_cur, bb) in fills.items():
+            key = fills.labels[lk]
             if to_cur:
                 ok = s is not None and s <= guaranteed
                 rec.site(frm, bb, '%s::from payload [%s..cursor], check guarantees >= %s' % (name, s, guaranteed))
